@@ -107,6 +107,15 @@ Theorem C15_b_model_ok : forall bound univ ops,
   forallb (fun b => b) (ccheckb bound univ true [] ops (ctrace bound [] ops)) = true.
 Proof. exact cmodel_ok. Qed.
 
+(* ---- observation about the code's hash, NOT part of the property: cms_hash is additive in the seed,
+        (uint32(hash x) + seed) mod width; then all depth probes of an item hold the same value, so the
+        row-wise minimum equals the value of any single row and depth buys no accuracy ---- *)
+Theorem C15_obs_rows_agree : forall depth width h s ops x i i',
+  (1 <= width)%nat -> (i < depth)%nat -> (i' < depth)%nat ->
+  cell (run depth width (pre_add h s) ops) i (loc width (pre_add h s) i x)
+  = cell (run depth width (pre_add h s) ops) i' (loc width (pre_add h s) i' x).
+Proof. intros depth width h s ops x i i' Hw. exact (additive_rows_agree depth width h s Hw ops x i i'). Qed.
+
 (* ---- the hypotheses are satisfiable by non-trivial inputs ---- *)
 (* width 2, depth 2, a hash that collides: items 1 and 3 share every cell *)
 Example C15_ex_cms :
